@@ -298,6 +298,39 @@ fn header_cases(drv: &mut Drv, rep: &mut Report, rng: &mut Rng, n: usize) {
     }
 }
 
+/// whole key frames: the real decoder against the composed Lean decoder Vp8Frame.decode (frame tag,
+/// header, partitions, per macroblock header / residuals or skip / reconstruction, loop filter, crop)
+/// - synthetic random-symbol frames with random and boundary-valued headers and small frames
+/// encoded by libwebp with varied options; the same frames are compared with libwebp by frame_case
+fn frame_model_cases(drv: &mut Drv, rep: &mut Report, rng: &mut Rng, n: usize) {
+    for i in 0..n {
+        let (w, h) = match i % 4 { 0 => (1 + rng.below(16) as u32, 1 + rng.below(16) as u32), 1 => (1 + rng.below(40) as u32, 1 + rng.below(40) as u32), 2 => (17 + rng.below(31) as u32, 1 + rng.below(20) as u32), _ => (16 * (1 + rng.below(2) as u32), 16 * (1 + rng.below(3) as u32)) };
+        let vp8: Vec<u8> = if i % 3 == 2 {
+            let am = rng.below(4) as u32;
+            let rgb = random_rgba(rng, w, h, am);
+            let (q, fs, sh, ft, seg, part) = (rng.below(101) as f32, rng.below(101) as i32, rng.below(8) as i32, rng.below(2) as i32, 1 + rng.below(4) as i32, rng.below(4) as i32);
+            let file = match catch(|| oracle::encode(&drop_alpha(&rgb), w as i32, h as i32, false, |c| { c.quality = q; c.method = (i % 5) as i32; c.filter_strength = fs; c.filter_sharpness = sh; c.filter_type = ft; c.segments = seg; c.partitions = part; c.autofilter = 0; })) { Ok(f) => f, Err(_) => continue };
+            match chunks_of(&file).into_iter().find(|(cc, _)| cc == b"VP8 ") { Some((_, v)) => v, None => continue }
+        } else {
+            let style = rng.next();
+            synth_frame(rng, w, h, style).0
+        };
+        let line = format!("vp8framemodel {}", hex(&vp8));
+        let got = match catch(|| image_webp::vp8::Vp8Decoder::decode_frame(Cursor::new(&vp8[..]))) {
+            Ok(Ok(f)) => format!("ok {} {} {}/{} {}/{} {}/{}", f.width, f.height, fnv_bytes(FNV_INIT, &f.ybuf), f.ybuf.len(), fnv_bytes(FNV_INIT, &f.ubuf), f.ubuf.len(), fnv_bytes(FNV_INIT, &f.vbuf), f.vbuf.len()),
+            Ok(Err(_)) => "err".to_string(),
+            Err(m) => format!("PANIC {m}"),
+        };
+        let exp = drv.ask(&line);
+        rep.case(&line, true);
+        rep.hit(if got == "err" { "frame_model_rejected" } else if i % 3 == 2 { "frame_model_libwebp_encoded" } else { "frame_model_synthetic" });
+        if got != exp {
+            let k = got.split(' ').zip(exp.split(' ')).position(|(a, b)| a != b).unwrap_or(0);
+            rep.disagree(Disagreement { case: line, got: got.clone(), expected: exp, class: "violation", obligation: "C02: the decoder reconstructs a key frame as the composition of its modelled parts does (Vp8Frame.decode: header, partitions, macroblock headers, residuals, reconstruction, loop filter, crop); the same frames are compared with libwebp".into(), detail: format!("{w}x{h}; first differing field: {}", ["status", "width", "height", "Y plane", "U plane", "V plane"].get(k).unwrap_or(&"?")) });
+        }
+    }
+}
+
 /// `read_coefficients` (hook 99a8eca) against the model Vp8Coef.readCoefficients: random and biased
 /// partitions (long zero runs, end-of-block right away, large categories), the crate's default
 /// probabilities and random ones (incl. 0 and 255), every plane and starting context, several calls
@@ -774,6 +807,19 @@ pub fn run(o: &Opts) -> Report {
         let p: Vec<&str> = case.split_whitespace().collect();
         if p[0] == "vp8frame" {
             frame_case(&mut rep, &riff(&chunk(b"VP8 ", &unhex(p[1]))), "replay");
+        } else if p[0] == "vp8framemodel" {
+            let vp8 = unhex(p[1]);
+            let got = match catch(|| image_webp::vp8::Vp8Decoder::decode_frame(Cursor::new(&vp8[..]))) {
+                Ok(Ok(f)) => format!("ok {} {} {}/{} {}/{} {}/{}", f.width, f.height, fnv_bytes(FNV_INIT, &f.ybuf), f.ybuf.len(), fnv_bytes(FNV_INIT, &f.ubuf), f.ubuf.len(), fnv_bytes(FNV_INIT, &f.vbuf), f.vbuf.len()),
+                Ok(Err(_)) => "err".to_string(),
+                Err(m) => format!("PANIC {m}"),
+            };
+            let exp = drv.ask(case);
+            rep.case(case, true);
+            if got != exp {
+                rep.disagree(Disagreement { case: case.to_string(), got, expected: exp, class: "violation", obligation: "C02: the decoder reconstructs a key frame as Vp8Frame.decode does".into(), detail: "replayed".into() });
+            }
+            frame_case(&mut rep, &riff(&chunk(b"VP8 ", &vp8)), "replay");
         } else {
             let exp = drv.ask(case);
             rep.notes.push(format!("kernel replay: model says {exp}"));
@@ -790,6 +836,7 @@ pub fn run(o: &Opts) -> Report {
     residual_cases(&mut drv, &mut rep, &mut rng, if o.thorough() { 20000 } else { 1500 });
     intra_cases(&mut drv, &mut rep, &mut rng, if o.thorough() { 15000 } else { 1500 });
     header_cases(&mut drv, &mut rep, &mut rng, if o.thorough() { 6000 } else { 600 });
+    frame_model_cases(&mut drv, &mut rep, &mut rng, if o.thorough() { 3000 } else { 300 });
     fparam_cases(&mut drv, &mut rep, &mut rng, if o.thorough() { 100000 } else { 6000 });
     // (b) frames
     let n = if o.thorough() { 1200 } else { 160 };
